@@ -17,7 +17,7 @@ CLAIMED = {
 
  "C01": dict(engine=K, category="model_checking", design="6 C01",
    technique="symbolic execution of Numba typed IR + z3 (QF_BV): inductive invariant with ghost true counts over one add/merge step, plus bounded unrolling of operation skeletons from empty sketches",
-   text="The invariant LB/UB (= the property itself, stated over ghost true counts and per-cell totals) is proved inductive over the real _add_linear/_merge_linear kernels from an arbitrary table, which covers histories of any length and any merge tree at the listed shapes; _query_linear is proved to return the minimum of the key's counters. A bounded search over all operation skeletons (K=3 quick, 4-5 thorough; 2 sketches, 3 keys, symbolic columns and boundary multiplicities) finds real histories, replayed through the public API.",
+   text="The invariant LB/UB (= the property itself, stated over ghost true counts and per-cell totals) is proved inductive over the real _add_linear/_merge_linear kernels from an arbitrary table, which covers histories of any length and any merge tree at the listed shapes; _query_linear is proved to return the minimum of the key's counters. A bounded search over all operation skeletons (K=3 quick, 4-5 thorough; 2 sketches, 3 keys, symbolic columns and boundary multiplicities) finds real histories, replayed through the public API. Attached: the _add_ngram_linear call-trace obligations and CrossHair conditions on the real CountMinLinear.add/update/add_ngram/merge glue (multiplicity cap, a merge never rebinds or aliases the operands' arrays, also into an empty sketch). Thorough: deep shapes to 8x8 by decomposition (query spec + per-row cell-level spec + depth-independent row lemma).",
    note="Bounded in table shape (<= 3x3 quick, 4x4 + 2x8 thorough) and BMC depth; hash stubbed as uninterpreted columns (exact: the kernels use it only modulo width); wrapper glue (update/ngram/save/load) is decided under C12/C10."),
  "C02": dict(engine=K, category="model_checking", design="6 C02",
    technique="symbolic execution of Numba typed IR + z3 (QF_ABV): kernel == specification from an arbitrary register state (z3 Array, symbolic precision), algebraic laws on the kernel terms",
@@ -30,11 +30,11 @@ CLAIMED = {
 
  "C03": dict(engine=K, category="model_checking", design="6 C03",
    technique="symbolic execution of Numba typed IR + z3 (QF_UFBV): inductive invariant with an uninterpreted ghost count function over key identities, plus bounded histories with symbolic key bytes",
-   text="Invariant 'every non-empty cell's count <= true count of the identity it stores' (identity = stored length + bytes, zero padding as representation invariant) is proved preserved by the real _add (key lengths 0..max_key_len+1, bytes symbolic) and _merge, and sufficient for _max_count(key) <= true count and 'never a key that was not added'. Bounded histories from empty sketches with symbolic key bytes (NUL bytes, aliases, over-long keys included by construction) find real counterexamples, replayed through add/merge/hh[key]/query(). This check found defect F1 (repaired in /repo commit ec85dfa).",
+   text="Invariant 'every non-empty cell's count <= true count of the identity it stores' (identity = stored length + bytes, zero padding as representation invariant) is proved preserved by the real _add (key lengths 0..max_key_len+1, bytes symbolic) and _merge, and sufficient for _max_count(key) <= true count and 'never a key that was not added'. Bounded histories from empty sketches with symbolic key bytes (NUL bytes, aliases, over-long keys included by construction) find real counterexamples, replayed through add/merge/hh[key]/query(). Attached: heavy-hitter _add_ngram call traces (exactly the windows are added) and the CrossHair query conditions of C13 (every reported pair is a stored key with its own count, from the sketch's own current cache). This check found defect F1 (repaired in /repo commit ec85dfa).",
    note="Bounded: max_key_len <= 3 (quick) / 4 (thorough), width,depth <= 2-3, K <= 4 operations; hash stubbed as columns; query()/candidate-set glue is decided under C13."),
  "C04": dict(engine=K, category="model_checking", design="6 C04",
    technique="symbolic execution of Numba typed IR + z3 (QF_BV + LIA glue): ghost-free Boyer-Moore potential lemmas per kernel step, linear-arithmetic glue to the invariant Phi >= 2f - W, plus bounded histories with symbolic key bytes",
-   text="For a tracked identity y and its cell in every row: one _add(y,v) raises the potential by exactly v, one _add(z!=y,v) lowers it by at most v (only if z shares the cell), _merge is super-additive, and _max_count(y) >= any positive potential -- each proved on the real kernels from an arbitrary sketch absent 32-bit saturation; a linear-arithmetic query shows these imply hh[y] >= max_r(2f - W_r). Bounded histories (symbolic key bytes, 2 sketches, K <= 4) find real counterexamples incl. merge-order dependent ones.",
+   text="For a tracked identity y and its cell in every row: one _add(y,v) raises the potential by exactly v, one _add(z!=y,v) lowers it by at most v (only if z shares the cell), _merge is super-additive, and _max_count(y) >= any positive potential -- each proved on the real kernels from an arbitrary sketch absent 32-bit saturation; a linear-arithmetic query shows these imply hh[y] >= max_r(2f - W_r). Bounded histories (symbolic key bytes, 2 sketches, K <= 4) find real counterexamples incl. merge-order dependent ones. Attached: the CrossHair query conditions of C13 (completeness above the threshold, no stale or foreign candidate set).",
    note="Saturated cells excluded as the property states; bounded shapes/key lengths; 'query() contains the key / majority key first' additionally rests on C13's query lemmas and is judged directly in every replay."),
 
  "C09": dict(engine=K, category="model_checking", design="6 C09",
